@@ -189,6 +189,12 @@ package server
 //@   modifies lru.Cache::view, lru.Cache::dom, c.StatusCode, c.BodyBuffer, $hdr, $bytes, $deletes
 //@   ensures [nokey] queryParam(c, "key") == "" ==> err != nil && (forall l *lru.Cache :: l.view == old(l.view) && l.dom == old(l.dom))
 //@   ensures [ok]    queryParam(c, "key") != "" ==> err == nil
+// the purge has been carried out when the handler answers, for exactly the key and cache named in the request
+//@   ensures [purged] queryParam(c, "key") != "" && queryParam(c, "cache") != "" && cache.defaultDispatchers.m.dom[box(queryParam(c, "cache"))] ==>
+//@                      !shardOfText(unbox(cache.defaultDispatchers.m.vals[box(queryParam(c, "cache"))], "*cache.dispatcher"), queryParam(c, "key")).cache.dom[box(queryParam(c, "key"))]
+//@   ensures [purged-all] queryParam(c, "key") != "" && queryParam(c, "cache") == "" ==> forall k any :: cache.defaultDispatchers.m.dom[k] ==>
+//@                      !shardOfText(unbox(cache.defaultDispatchers.m.vals[k], "*cache.dispatcher"), queryParam(c, "key")).cache.dom[box(queryParam(c, "key"))]
+//@   precall github.com/vicanso/pike/cache.RemoveHTTPCache#0 [args] $arg0 == queryParam(c, "cache") && b2s(contents($arg1)) == queryParam(c, "key")
 
 // ---- the proxy middleware (C03 flow, C14 not-found paths, C15 mutate/restore frame) ----------
 
